@@ -3,13 +3,13 @@ Level: model_checking: the VM explores every future of every Turing jump; the re
 interpreter resolves the same choice points by stateless backtracking; committed traces
 must agree on every enumerated (program, input)."""
 from ..cases import Stats, run_batch, run_program, replay_conformance, std_coverage
-from ..gen import tt
+from ..gen import tt, variants
 
 LEVEL = 'model_checking'
 
 
 def items(tier):
-    out = tt.family_T(tier) + tt.family_H(tier) + tt.family_Q(tier) + tt.family_P(tier) + tt.family_R(tier) + tt.family_O(tier)
+    out = tt.family_T(tier) + tt.family_H(tier) + tt.family_Q(tier) + tt.family_P(tier) + tt.family_R(tier) + tt.family_O(tier) + variants.family_V(tier)
     return [(i,) + it for i, it in enumerate(out)]
 
 
@@ -40,6 +40,8 @@ def run_item(item, tier):
             run_program(st, tt.build_O(order), tt.O_ARGVS, [2], f'O{list(order)}')
             st.add('cases')
         st.sample({'family': 'O', 'call_order': [tt.O_FUNCS[i][1] for i in payload[0]]})
+    elif fam == 'V':
+        _run_variants(st, payload)
     elif fam == 'Q2':
         run_batch(st, tt.build_Q2, payload, tt.Q_ARGVS, Ws, f'Q2[{idx}]')
     elif fam == 'P':
@@ -55,8 +57,46 @@ def run_item(item, tier):
     return st
 
 
+def _run_variants(st, payload):
+    """Example programs and their single-token variations: typed and given meaning by the reference, then compared."""
+    from ..cases import ref_trace, check_conformance, compile_case
+    from ..ref.parser import parse_program
+    from ..ref import types as rtypes, interp
+    from ..runner import HarnessError
+    name, idx, nin = payload
+    argvs = variants.ARGS[name][:nin]
+    for what, src in variants.variants(name, idx):
+        st.add('cases')
+        try:
+            prog = parse_program(src)
+            rtypes.elaborate(prog)
+        except Exception:
+            st.add('variants_not_programs')       # the edit broke the syntax or the typing rules: not a program
+            continue
+        tag = f'V[{name}: {what}]'
+        lines = None
+        for argv in argvs:
+            try:
+                ref = ref_trace(prog, argv, 2, max_steps=8000, max_runs=80)
+            except HarnessError:
+                st.add('variants_outside_model')  # e.g. reads an element that was never written
+                continue
+            if ref[0] != 'ok':
+                st.add('variants_outside_model')
+                continue
+            if lines is None:
+                lines, err = compile_case(src, 2)
+                if err:
+                    st.viol(f'{tag}: well-typed program not compiled: {err[0]}: {err[1]}',
+                            {'kind': 'conformance', 'src': src, 'prog': repr(prog), 'argv': list(argv), 'W': 2, 'S': 256, 'unchecked': False, 'tag': tag})
+                    break
+            check_conformance(st, src, prog, argv, 2, lines=lines, tag=tag, ref=ref)
+            st.add('variant_runs')
+    st.sample({'family': 'V', 'example': name, 'variant_indices': list(idx)})
+
+
 def coverage(total, tier):
-    return std_coverage(total, {
+    cov = std_coverage(total, {
         'T': f'{len(tt.t_atoms())} try-body atoms (19 base atoms, each also under preempt / if / three loop shapes); all bodies of '
              'length<=2' + (' plus length 3 over 19 atoms' if tier == 'thorough' else ' with at least one non-nesting atom') + ' x {undo, stop}; 3 further handler bodies '
              '(return, nested try, you-call) on ' + ('single atoms and all base pairs' if tier == 'thorough' else 'single atoms') + '; x in 0,1,2',
@@ -66,12 +106,18 @@ def coverage(total, tier):
         'O': f'{len(tt.O_FUNCS)} you-functions of different kinds (try/stop, try/undo, preemptive and non-preemptive defeat callees, ??, value-returning try, '
              'try in a loop, dynamic arrays around a try) called -- hence generated -- in every order of ' + ('every 5th permutation of every 5-subset' if tier == 'thorough' else 'every 4th 3-subset')
              + ' plus all ordered pairs, the first two called again; x in 0,1,2',
+        'V': 'the example programs shipped with the compiler (decimal, factor, hello, max, mergesort, optional_max, ouroboros) on 1-7 inputs each, and every single-token '
+             'variation of them (integer literal +-1 / 0 / doubled, comparison, arithmetic, and/or, undo/stop, break/continue, true/false swapped, `not` removed) that the '
+             'reference typer still accepts; variants leaving the model are skipped and counted',
         'Q': f'{len(tt.Q_LEFT)} left x {len(tt.Q_RIGHT)} right operands x {len(tt.Q_POS)} use positions '
              + ('(all)' if tier == 'thorough' else '(every 2nd, all for assignments to globals)') + f' + {len(tt.Q_OTHER)} bool/byte/constant-left-with-faulting-right shapes; x in 0,1,3',
         'R': f'{len(tt.R_SHAPES)} shapes of value-returning you-functions returning from inside a try x {len(tt.R_PRE)} prefixes x {len(tt.R_EXPR)} return '
              'expressions (calls of value-returning defeat functions that may defeat) x undo/stop x 3 handler bodies' + ('' if tier == 'thorough' else ' (every 2nd + all plain calls)') + '; x in 0,1,2',
         'P': f'{len(tt.P_FUNCS)} preemptive defeat functions x {len(tt.P_AFTER)} continuations x undo/stop, checked (W 2,4) and unchecked twins',
     })
+    for k in ('variant_runs', 'variants_not_programs', 'variants_outside_model'):
+        cov[k] = total.get(k, 0)
+    return cov
 
 
 def vacuity(total, tier):
